@@ -10,6 +10,9 @@
         -> the same for `SymbolicAdiabaticHamiltonian.groups` / `.circuit(dt, t)`
     NSTEPS bitsT bitsT0 bitsDt      (IEEE double bit patterns as decimal UInt64)
         -> nstepsF ; nstepsLegacyF ; number of callback records of `execute` with that many steps
+    TIMES kind bitsT0 bitsDt n cb   (kind 0 = exp / Trotter, 1 = rk4, 2 = rk45; cb 0/1)
+        -> bits of the solver clock after `n` steps ; bits of the times at which the Hamiltonian is
+           read during `execute` (`readLog`), in order of use
 -/
 import QV.Core.GI
 import QV.Model.Sim
@@ -120,6 +123,15 @@ def handle : P String := do
     let n := nstepsF tf t0 dt
     let (_, hist) := execute (S := Nat) (fun s => s + 1) id true n 0
     pure s!"{n} ; {nstepsLegacyF tf t0 dt} ; {hist.length}"
+  | "TIMES" =>
+    let kind ← nextNat
+    let t0 ← nextFloat
+    let dt ← nextFloat
+    let n ← nextNat
+    let cb ← nextNat
+    let k : SolverKind := if kind == 0 then .exp else if kind == 1 then .rk4 else .rk45
+    let (t, log) := readLog (fun m => Float.ofNat m) k (cb != 0) n t0 dt
+    pure s!"{t.toBits.toNat} ; {showNats (log.map fun x => x.toBits.toNat)}"
   | "" => pure ""
   | c => pure s!"bad-op {c}"
 
